@@ -1054,9 +1054,9 @@ Proof.
   rewrite P3. cbn [N.eqb andb orb].
   unfold push.
   assert (Ha : fb_advance e = e).
-  { unfold fb_advance. destruct (N.ltb_spec (e_fbcur e) (e_recvseq e)); [lia | reflexivity]. }
+  { unfold fb_advance. destruct (N.ltb_spec (e_fbcur e) (e_recvseq e)) as [Hlt | _]; [clear - Hrs Hlt; lia | reflexivity]. }
   rewrite Ha.
-  destruct (N.ltb_spec m (e_fbcur e)) as [_|]; [|lia].
+  destruct (N.ltb_spec m (e_fbcur e)) as [_ | Hge]; [|clear - Hm Hge; lia].
   cbn [N.leb N.compare fst snd orb negb andb]. rewrite P5.
   change (set_toack e []) with (set_rx e (e_recvseq e) (e_fbcur e) (e_frags e) (e_cache e) (e_repoch e) (e_lepoch e) (e_queue e) []).
   set (e0 := set_rx e _ _ _ _ _ _ _ []).
@@ -1077,7 +1077,7 @@ Proof.
   replace (e_reply e2) with true by (subst e2 e0; cbn; congruence).
   assert (Hsr : sent_recently c e2 now = false).
   { unfold sent_recently. replace (e_lastsent e2) with (e_lastsent e) by (subst e2 e0; reflexivity).
-    destruct (N.ltb_spec (2 * (now - e_lastsent e)) (c_initial c)); [lia | apply andb_false_r]. }
+    destruct (N.ltb_spec (2 * (now - e_lastsent e)) (c_initial c)) as [Hlt | _]; [clear - Hrate Hlt; lia | apply andb_false_r]. }
   rewrite Hsr.
   rewrite do_send_server by (rewrite ?B1, ?Bf; auto).
   cbn [snd app ack_dgram]. subst e2 e0. cbn [e_out set_fsm set_rx]. rewrite Q2. reflexivity.
@@ -1300,7 +1300,7 @@ Proof.
     { rewrite <- Hst2. unfold stage. rewrite W2, W1.
       apply andb_prop in Ec. destruct Ec as [_ Ec]. rewrite (last_send_is_F5 c _ Hfl Ec). cbv. discriminate. }
     split; [rewrite S5; exact Hle|].
-    split; [rewrite P7, has_hs_ack; discriminate | lia]. }
+    split; [rewrite P7, has_hs_ack; discriminate | rewrite S5; apply N.le_max_r]. }
   pose proof (same_fsm_parse c e2) as Hp. pose proof (parse_next c e2) as Hn.
   destruct (parse c e2) as [e3 nxt]. cbn [fst snd] in *.
   destruct (same_fsm_stage e2 e3 Hp) as (S3&L3&F3'&N3).
@@ -1311,7 +1311,7 @@ Proof.
   assert (W3 : e_fst e3 = Waiting) by (destruct Hp as (_&_&Hs&_); congruence).
   destruct Hn as [Hn | [[Hn1 Hn2] | (Hn1&Hn2&Hn3)]]; [congruence | |].
   - (* a later flight *)
-    assert (Hne : N.eqb nxt (e_flight e3) = false) by (apply N.eqb_neq; rewrite <- F3'; lia).
+    assert (Hne : N.eqb nxt (e_flight e3) = false) by (apply N.eqb_neq; rewrite <- F3'; clear - Hn1; lia).
     rewrite Hne, andb_false_r. cbn [andb].
     unfold enter. set (e0 := set_fsm _ nxt _ _ _ _ _ _ _ _ _).
     assert (W0 : e_fst e0 = Waiting) by reflexivity.
@@ -1319,9 +1319,9 @@ Proof.
     unfold ok_step. split; [right; exact D1|].
     assert (Hlt : stage e < stage (fst (do_send c e0 now))).
     { rewrite <- Hst2. unfold stage at 1. rewrite W2, W1.
-      destruct D2 as [D2 | D2]; rewrite D2; [subst e0; cbn; lia | lia]. }
-    split; [lia|]. split; [intros _; exact Hlt|].
-    destruct D2 as [D2 | D2]; rewrite D2; [subst e0; cbn; lia | lia].
+      destruct D2 as [D2 | D2]; rewrite D2; [subst e0; cbn [set_fsm e_flight]; exact Hn1 | clear - Hn1 Hn2; lia]. }
+    split; [apply N.lt_le_incl; exact Hlt|]. split; [intros _; exact Hlt|].
+    destruct D2 as [D2 | D2]; rewrite D2; [subst e0; cbn [set_fsm e_flight]; clear - Hn2; lia | apply N.le_max_r].
   - (* the server received the client's final flight *)
     assert (Hc3 : e_client e3 = false) by (destruct Hp as (Hc&_); congruence).
     rewrite Hc3, Hn3, <- F3', Hn2, Hl4. change (N.eqb F4 F4) with true. cbn [negb andb].
@@ -1334,7 +1334,8 @@ Proof.
     unfold ok_step. cbn [fst snd].
     assert (Hlt : stage e < stage e5).
     { rewrite T1, <- Hst2. unfold stage. rewrite W2, W1, Hn2. cbv. reflexivity. }
-    split; [left; split; congruence|]. split; [lia|]. split; [intros _; exact Hlt | lia].
+    split; [left; split; congruence|]. split; [apply N.lt_le_incl; exact Hlt|].
+    split; [intros _; exact Hlt | rewrite T1; apply N.le_max_r].
 Qed.
 
 (* C17: within half an initial interval of its last transmission a waiting endpoint answers a
@@ -1355,9 +1356,9 @@ Proof.
   dif; cbn [fst snd]; [discriminate|].
   set (e1' := set_toack e1 []).
   assert (Hs' : same_fsm e e1') by (eapply same_fsm_trans; [exact Hs | apply same_fsm_set_toack]).
-  destruct (same_fsm_stage e e1' Hs') as (S1&L1&_).
+  destruct (same_fsm_stage e e1' Hs') as (S1&L1&_&N1).
   assert (Hw1 : e_fst e1' = Waiting) by (destruct Hs' as (_&_&H&_); congruence).
-  assert (Hrec1 : recent c e1' now) by (unfold recent in *; rewrite <- L1; exact Hrec).
+  assert (Hrec1 : recent c e1' now) by (eapply recent_transfer; [exact L1 | exact N1 | exact Hrec]).
   set (e2 := if retr then e1' else set_interval e1' (c_initial c)).
   destruct (snd (acknowledge e2 acks)) eqn:Ep.
   - intros _. right. destruct (acknowledge_progress e2 acks Ep) as (f & Hf1 & Hf2). exists f. split; [exact Hf1|].
@@ -1402,7 +1403,7 @@ Definition in_window (c : cfg) (T : N) (i : input) : Prop :=
 Definition count_hs (tr : list (input * list dgram)) : nat := length (filter (fun p => has_hs (snd p)) tr).
 
 Theorem no_zero_delay_ping_pong c T ins : flags_cfg c -> forall e,
-  Forall (in_window c T) ins -> stage e <= 7 -> (e_fst e = Waiting -> T <= e_lastsent e) ->
+  Forall (in_window c T) ins -> stage e <= 7 -> (e_fst e = Waiting -> T <= e_lastsent e /\ e_sent e = true) ->
   N.of_nat (count_hs (snd (run c e ins))) + stage e <= 7.
 Proof.
   intro Hfl. induction ins as [|i ins IH]; intros e Hall Hst Hls; [cbn; lia|].
@@ -1411,30 +1412,31 @@ Proof.
   cbn [run step].
   assert (Hstep : let r := on_datagram c e d now in
                   stage e <= stage (fst r) /\ (has_hs (snd r) = true -> stage e < stage (fst r)) /\
-                  stage (fst r) <= 7 /\ (e_fst (fst r) = Waiting -> T <= e_lastsent (fst r))).
+                  stage (fst r) <= 7 /\ (e_fst (fst r) = Waiting -> T <= e_lastsent (fst r) /\ e_sent (fst r) = true)).
   { destruct (e_fst e) eqn:Ef.
-    - assert (Hrec : recent c e now) by (unfold recent; specialize (Hls eq_refl); lia).
+    - destruct (Hls eq_refl) as [Hl0 Hn0].
+      assert (Hrec : recent c e now) by (unfold recent; split; [exact Hn0 | clear - Hl0 Hn1 Hn2; lia]).
       unfold on_datagram.
       pose proof (same_fsm_process_records true d e) as Hs.
       pose proof (process_records_ack_free true d e Haf) as Hna.
       destruct (process_records true e d) as [[[e1 hs] retr] acks]. cbn [fst snd] in *. subst acks.
-      destruct (same_fsm_stage e e1 Hs) as (S1&L1&_).
+      destruct (same_fsm_stage e e1 Hs) as (S1&L1&_&N1).
       dif; cbn [fst snd].
-      + rewrite <- S1. split; [lia|]. split; [discriminate|]. split; [lia|]. intros _. rewrite <- L1. now apply Hls.
+      + rewrite <- S1. split; [apply N.le_refl|]. split; [discriminate|]. split; [exact Hst|]. intros _. rewrite <- L1, <- N1. auto.
       + set (e1' := set_toack e1 []).
         assert (Hs' : same_fsm e e1') by (eapply same_fsm_trans; [exact Hs | apply same_fsm_set_toack]).
-        destruct (same_fsm_stage e e1' Hs') as (S2&L2&_).
+        destruct (same_fsm_stage e e1' Hs') as (S2&L2&_&N2).
         assert (Hw1 : e_fst e1' = Waiting) by (destruct Hs' as (_&_&H&_); congruence).
-        assert (Hrec1 : recent c e1' now) by (unfold recent in *; rewrite <- L2; exact Hrec).
+        assert (Hrec1 : recent c e1' now) by (eapply recent_transfer; [exact L2 | exact N2 | exact Hrec]).
         pose proof (on_event_recent c e1' hs retr [] (e_toack e1) now Hfl Hw1 Hrec1 eq_refl eq_refl) as (K1 & K2 & K3 & K4).
-        rewrite S2. split; [exact K2|]. split; [exact K3|]. split; [lia|].
-        intros _. destruct K1 as [K1 | K1]; rewrite K1; [rewrite <- L2; now apply Hls | exact Hn1].
+        rewrite S2. split; [exact K2|]. split; [exact K3|]. split; [rewrite <- S2 in K4; clear - K4 Hst; lia|].
+        intros _. destruct K1 as [[K1 K1'] | [K1 K1']]; rewrite K1, K1'; [rewrite <- L2, <- N2; auto | auto].
     - destruct (finished_receive c e d now Ef) as (F1 & _ & (epo & fs & F3)).
       cbv zeta in *. rewrite F3, has_hs_ack. unfold stage. rewrite F1, Ef.
-      split; [lia|]. split; [discriminate|]. split; [lia|]. discriminate. }
+      split; [apply N.le_refl|]. split; [discriminate|]. split; [apply N.le_refl|]. discriminate. }
   destruct (on_datagram c e d now) as [e1 o]. cbn [fst snd] in Hstep. destruct Hstep as (H1 & H2 & H3 & H4).
   specialize (IH e1 Hrest H3 H4). destruct (run c e1 ins) as [e2 tr]. cbn [snd] in *.
-  unfold count_hs in *. cbn [filter snd]. destruct (has_hs o) eqn:Eo; cbn [length]; [specialize (H2 eq_refl); lia | lia].
+  unfold count_hs in *. cbn [filter snd]. destruct (has_hs o) eqn:Eo; cbn [length]; [specialize (H2 eq_refl); clear - IH H2; lia | clear - IH H1; lia].
 Qed.
 
 (* ---------- known gap (C17): a repeated identical fragment is "new data" every time ---------- *)
@@ -1464,3 +1466,114 @@ Theorem only_new_data_restores_interval_refuted :
     e_interval e = 4000 /\ c_initial repeat_cfg = 1000 /\
     e_interval (fst (on_datagram repeat_cfg e d now)) = 1000 /\ snd (on_datagram repeat_cfg e d now) = [].
 Proof. exists repeat_state, repeat_dgram, 14200. vm_compute. repeat split; reflexivity. Qed.
+
+(* ---------- dual-stack client: the negotiation phase ---------- *)
+
+Lemma ep_datagram_fsm c e d now : negotiating e = false -> ep_datagram c e d now = on_datagram c e d now.
+Proof. unfold ep_datagram. now intros ->. Qed.
+Lemma ep_timer_fsm c e : negotiating e = false -> ep_timer c e = on_timer c e.
+Proof. unfold ep_timer. now intros ->. Qed.
+Lemma server_never_negotiates e : e_client e = false -> negotiating e = false.
+Proof. unfold negotiating. now intros ->. Qed.
+
+(* C17, dual-stack client (conn.go negotiateVersionClient): while the version is being negotiated the
+   ClientHello is repeated on the same schedule: one expiry doubles the interval up to 60 s (kept
+   without backoff), sends the ClientHello again, and the next deadline is one new interval later;
+   the state machine's own clock (lastSent) is not touched *)
+Theorem neg_timer_step c e :
+  negotiating e = true ->
+  let e' := fst (ep_timer c e) in
+  e_interval e' = bump c (e_interval e) /\ e_timer e' = e_timer e + e_interval e' /\
+  e_out e' = e_out e /\ negotiating e' = true /\ e_lastsent e' = e_lastsent e /\ e_sent e' = e_sent e /\
+  snd (ep_timer c e) = pack c (e_out e).
+Proof.
+  intro Hn. unfold ep_timer. rewrite Hn. unfold neg_timer. cbn [fst snd].
+  repeat split. unfold negotiating in *. cbn. exact Hn.
+Qed.
+
+Fixpoint neg_timeouts (k : nat) (c : cfg) (e : ep) : ep :=
+  match k with O => e | S k' => fst (ep_timer c (neg_timeouts k' c e)) end.
+
+Theorem neg_interval_law c e k :
+  negotiating e = true ->
+  let e' := neg_timeouts k c e in
+  negotiating e' = true /\ e_out e' = e_out e /\ e_interval e' = sched c (e_interval e) k /\
+  e_timer (neg_timeouts (S k) c e) = e_timer e' + e_interval (neg_timeouts (S k) c e).
+Proof.
+  intro Hn. induction k as [|k IH].
+  - cbn [neg_timeouts]. destruct (neg_timer_step c e Hn) as (H1 & H2 & _).
+    split; [exact Hn|]. split; [reflexivity|]. split; [now rewrite sched_0 | exact H2].
+  - destruct IH as (Hn' & Ho & Hi & _). cbn [neg_timeouts].
+    destruct (neg_timer_step c (neg_timeouts k c e) Hn') as (H1 & H2 & H3 & H4 & _).
+    split; [exact H4|]. split; [congruence|]. split; [rewrite H1, Hi; apply bump_sched|].
+    destruct (neg_timer_step c (fst (ep_timer c (neg_timeouts k c e))) H4) as (_ & H2' & _). exact H2'.
+Qed.
+
+(* a datagram read during negotiation restarts the timeout; it starts the state machine (Flight 1,
+   primed with an empty event) exactly when the server's first message is complete, and is answered
+   by nothing otherwise *)
+Theorem neg_datagram_quiet c e d now :
+  negotiating e = true ->
+  let e1 := fst (fst (fst (process_records true e d))) in
+  has e1 0 HT_SH 0 || has e1 0 HT_HRR 0 = false ->
+  snd (ep_datagram c e d now) = [] /\ negotiating (fst (ep_datagram c e d now)) = true /\
+  e_timer (fst (ep_datagram c e d now)) = now + e_interval e /\
+  e_interval (fst (ep_datagram c e d now)) = e_interval e.
+Proof.
+  intros Hn. unfold ep_datagram. rewrite Hn. unfold neg_datagram.
+  pose proof (same_fsm_process_records true d e) as Hs.
+  destruct (process_records true e d) as [[[e1 hs] retr] acks]. cbn [fst] in *. intro Hh.
+  set (e2 := set_fsm e1 _ _ _ _ _ _ _ _ _ _).
+  replace (has e2 0 HT_SH 0 || has e2 0 HT_HRR 0) with (has e1 0 HT_SH 0 || has e1 0 HT_HRR 0) by reflexivity.
+  rewrite Hh. cbn [fst snd].
+  destruct Hs as (Hc&Hf&Hst&_&_&_&Hi&_).
+  split; [reflexivity|]. split; [|split; subst e2; cbn; congruence].
+  unfold negotiating in *. subst e2. cbn. rewrite <- Hc, <- Hf, <- Hst. exact Hn.
+Qed.
+
+(* emission bound with the negotiation phase included *)
+Definition estep (c : cfg) (e : ep) (i : input) : ep * list dgram :=
+  match i with IDgram d now => ep_datagram c e d now | ITimer => ep_timer c e end.
+
+Fixpoint erun (c : cfg) (e : ep) (ins : list input) : ep * list (input * list dgram) :=
+  match ins with
+  | [] => (e, [])
+  | i :: ins' => let '(e1, o) := estep c e i in let '(e2, tr) := erun c e1 ins' in (e2, (i, o) :: tr)
+  end.
+
+Lemma estep_bound c e i :
+  bounded c e ->
+  bounded c (fst (estep c e i)) /\
+  (length (snd (estep c e i)) <= (if is_timer i then maxrecs c else 1 + maxrecs c))%nat.
+Proof.
+  intro Hb. destruct i as [d now|]; cbn [estep is_timer].
+  - unfold ep_datagram. destruct (negotiating e); [|now apply emission_bound_per_datagram].
+    unfold neg_datagram.
+    pose proof (same_fsm_process_records true d e) as Hs.
+    destruct (process_records true e d) as [[[e1 hs] retr] acks]. cbn [fst] in Hs.
+    pose proof (bounded_same c e e1 Hs Hb) as Hb1.
+    set (e2 := set_fsm e1 _ _ _ _ _ _ _ _ _ _).
+    assert (Hb2 : bounded c e2) by (destruct Hb1; split; assumption).
+    dif; [|cbn [fst snd]; split; [exact Hb2 | cbn; lia]].
+    apply on_event_bound. destruct Hb2; split; assumption.
+  - unfold ep_timer. destruct (negotiating e); [|now apply emission_bound_per_timer].
+    unfold neg_timer. cbn [fst snd]. destruct Hb as [H1 H2]. split; [split; assumption|].
+    etransitivity; [apply pack_len | exact H1].
+Qed.
+
+Theorem emission_bound_ep c ins : forall e,
+  bounded c e ->
+  (emitted (snd (erun c e ins)) <= n_timers ins * maxrecs c + n_dgrams ins * (1 + maxrecs c))%nat.
+Proof.
+  induction ins as [|i ins IH]; intros e Hb; cbn [erun]; [cbn; lia|].
+  destruct (estep_bound c e i Hb) as [Hb1 Hl].
+  destruct (estep c e i) as [e1 o]. cbn [fst snd] in *.
+  specialize (IH e1 Hb1). destruct (erun c e1 ins) as [e2 tr]. cbn [snd emitted fold_right] in *.
+  unfold n_timers, n_dgrams in *. cbn [filter].
+  destruct (is_timer i); cbn [negb length]; lia.
+Qed.
+
+(* liveness instances with a dual-stack client (negotiation phase included in the closure) *)
+Definition cfg13d (raw : N * bool * list (N * list (N * N * N * N * N * N * N))) : cfg := dual_client (cfg13 raw).
+Lemma live_v13_dualc : live_check 400 2 (cfg13d g13_v13_dualc) = true. Proof. vm_compute. reflexivity. Qed.
+Lemma live_v13_dualc_direct : live_check 400 2 (cfg13d g13_v13_dualc_direct) = true. Proof. vm_compute. reflexivity. Qed.
